@@ -516,6 +516,18 @@ def run_sig(case, rng, mon):
                                               f"{'equal' if p == q else 'differ'}"))
             if len(mism) > 5:
                 break
+        if compared % 5 == 0:
+            # mixed orientation: a plain signature against the flipped view a component port carries, both orders
+            tf = t.flip()
+            for a_, b_, how in ((s, tf, "plain == flipped"), (tf, s, "flipped == plain"), (s.flip(), tf, "flipped == flipped")):
+                mon.counters["eq_matches_params"] += 1
+                try:
+                    got_eq = bool(a_ == b_)
+                except Exception as e:
+                    got_eq = f"raised {type(e).__name__}"
+                if got_eq != (p == q):
+                    mism.append(("eq_matches_params", f"{cls}: {p} vs {q} ({how}) evaluates to {got_eq}, parameters "
+                                                      f"{'equal' if p == q else 'differ'}"))
     mon.counters["eq_matches_params"] += compared
     # a signature never equals an unrelated object / another class's signature
     foreign = {"csr.Signature": lambda: csr.Signature(addr_width=4, data_width=8),
@@ -537,6 +549,25 @@ def run_sig(case, rng, mon):
                 same = f"raised {type(e).__name__}: {e}"
             if same:
                 mism.append(("eq_matches_params", f"{cls}: {mine!r} == {other!r} gives {same}"))
+    if cls in foreign:
+        # a project's own subclass of the signature class (it adds nothing): create() still round-trips, the instance
+        # still equals the library's signature of the same parameters and is still compliant with what it creates
+        base_obj = foreign[cls]()
+        Sub = type("Project" + type(base_obj).__name__, (type(base_obj),), {})
+        try:
+            mine = Sub.__new__(Sub)
+            mine.__dict__.update(base_obj.__dict__)        # same parameters, same members, the subclass's type
+            intf = mine.create(path=("sub",))
+            checks_ = {"create().signature == original": intf.signature == mine,
+                       "subclass instance == library signature": mine == foreign[cls](),
+                       "library signature == subclass instance": foreign[cls]() == mine,
+                       "is_compliant(create())": mine.is_compliant(intf)}
+        except Exception as e:
+            checks_ = {f"raised {type(e).__name__}: {e}": False}
+        for what, ok_ in checks_.items():
+            mon.counters["create_roundtrip"] += 1
+            if not ok_:
+                mism.append(("create_roundtrip", f"{cls}: trivial subclass of the signature class: {what} is false"))
     for name, msg in mism[:6]:
         mon.violations.append({"monitor": name, "mechanism": f"{cls}:{name}", "msg": msg, "detail": {}})
     mon.bin("signature_classes", cls)
